@@ -76,6 +76,24 @@ def step (st : St) (l : Line) : St × List Msg :=
          Msg.prop (tag ++ s!"contents change across follow-up put/flush/GC cycles: r0=[{ra.get "r0"}] r1=[{ra.get "r1"}]"))]) ++
       (if r2 = r1 then [] else [(if r2.length = r1.length then some (differing r1 r2) else none,
          Msg.prop (tag ++ s!"contents change across close and rescan: r1=[{ra.get "r1"}] r2=[{ra.get "r2"}]"))])
+    -- (a') C11 on the recovered store (images at hook points only): after everything was removed, the files were left behind and
+    -- eight cycles of both collectors ran, no non-current primary file may be left without a record in use, or with a free share
+    -- at or above the low-use threshold (it must have been drained by relocation); records that no index entry ever named
+    -- (a crash between the primary's and the index's flush) count as in use until relocation finds them unreferenced
+    let drainFiles : List (Nat × Nat × Nat × Nat) := ((((ra.get "drain").splitOn "!").headD "").splitOn ",").filterMap fun e =>
+      match e.splitOn ":" with
+      | [n, sz, fr, bu] => match n.toNat?, sz.toNat?, fr.toNat?, bu.toNat? with
+        | some n, some sz, some fr, some bu => some (n, sz, fr, bu)
+        | _, _, _, _ => none
+      | _ => none
+    let curFile := drainFiles.foldl (fun a f => max a f.1) 0
+    let pDrain : List (Option (List Bytes) × Msg) := if openRes ≠ "ok" then [] else
+      drainFiles.filterMap fun (n, sz, fr, bu) =>
+        if n ≥ curFile ∨ sz = 0 then none
+        else if bu = 0 then some (none, Msg.prop (tag ++ s!"[C11] primary file {n} holds no record in use but still occupies {sz} bytes after the drain ({ra.get "drain"})"))
+        else if 100 * fr ≥ 50 * (fr + bu) then some (none, Msg.prop (tag ++ s!"[C11] low-use primary file {n} (free {fr}, in use {bu}) was not drained by relocation ({ra.get "drain"})"))
+        else none
+    let pr := pr ++ pDrain
     -- (b) correspondence: the model's recovery of the same bytes
     let remapPending : Bool := match im.disk.ihdr with
       | some h => h.pfs == 0 && st.seq.cfg.kind == .mh
@@ -112,7 +130,8 @@ def step (st : St) (l : Line) : St × List Msg :=
       else if crashImage st.prevDisk stream (evCount - 1) true == im.disk then ([], [Msg.flag "flush-image-in-model"] ++ [Msg.flag "flush-image-early-rollover"])
       else ([Msg.corr (tag ++ s!"image of a crash inside Flush is not the model's crash image after {evCount} of {streamLength stream} events")], [])
     let corr := corr ++ corrImg
-    let flags := flagImg ++ [Msg.flag "crash-image"] ++ (if inTranslate then [Msg.flag "translate-crash"] else []) ++
+    let flags := flagImg ++ (if drainFiles.isEmpty then [] else [Msg.flag "c11-drain-after-recovery"]) ++
+      (if drainFiles.any (fun f => f.1 < curFile ∧ f.2.1 > 0) then [Msg.flag "c11-drain-leftover-file"] else []) ++ [Msg.flag "crash-image"] ++ (if inTranslate then [Msg.flag "translate-crash"] else []) ++
       (if inTranslate && openRes = "err" then [Msg.flag "translate-crash-open-refused"] else []) ++ (if ra.get "tear" ≠ "none" then [Msg.flag "torn"] else []) ++
       [Msg.flag ("at:" ++ (point.splitOn ".").headD "")]
     -- recognisers of the known findings (decidable predicates on the image / history, not on the outcome)
